@@ -717,7 +717,98 @@ Section DialerTheorems.
 End DialerTheorems.
 
 (* ================= 7. DebugUpgrader *)
+(* what a reader over MultiReader(front, conn) took from conn and what it left of it *)
+Lemma conn_split : forall (cap : list byte) src1 chs u,
+  cap ++ concat src1 = u ++ concat chs ->
+  conn_taken src1 chs ++ concat (conn_left src1 chs) = concat src1
+  /\ (length (concat (conn_left src1 chs)) <= src_len chs)%nat.
+Proof.
+  intros cap src1 chs u H. unfold conn_taken, conn_left.
+  destruct (src_len chs <=? src_len src1)%nat eqn:Hcmp.
+  - destruct (app_suffix_le cap (concat src1) u (concat chs) H ltac:(unfold src_len in *; lia)) as [mid Hm].
+    split; [|unfold src_len; lia].
+    assert (Hl : (src_len src1 - src_len chs = length mid)%nat).
+    { unfold src_len. rewrite Hm, app_length. lia. }
+    rewrite Hl. rewrite Hm at 1. rewrite firstn_app, firstn_all, Nat.sub_diag. cbn [firstn].
+    rewrite app_nil_r. symmetry. exact Hm.
+  - replace (src_len src1 - src_len chs)%nat with 0%nat by lia. cbn [firstn app].
+    split; [reflexivity|unfold src_len in *; lia].
+Qed.
+
+Lemma skipn_add : forall (a b : nat) (l : list byte), skipn a (skipn b l) = skipn (b + a) l.
+Proof.
+  intros a b. induction b as [|b IH]; intros l; [reflexivity|].
+  destruct l; [rewrite !skipn_nil; reflexivity|]. cbn [skipn plus]. apply IH.
+Qed.
+
+(* the loop ends at the empty line, or with a result that is not the blank-line result *)
+Section EndsAtBlank.
+  Variables (S R : Type).
+  Variable step : S -> list byte -> S + R.
+  Variable on_blank : S -> R.
+  Variable on_ioerr : S -> tail_kind -> list byte -> R.
+  Variable on_fuel : R.
+  Variable P : R -> Prop.
+  Hypothesis P_step : forall s line res, step s line = inr res -> P res.
+  Hypothesis P_io : forall s t p, P (on_ioerr s t p).
+  Hypothesis P_fuel : P on_fuel.
+
+  Lemma run_stream_blank_or : forall fuel B s r, 1 <= B ->
+    P (fst (run_stream S R step on_blank on_ioerr on_fuel fuel B s r))
+    \/ exists h, head_end (flat r) = Some h
+                 /\ flat (snd (run_stream S R step on_blank on_ioerr on_fuel fuel B s r)) = skipn h (flat r).
+  Proof.
+    induction fuel as [|fuel IH]; intros B s r HB; cbn [run_stream]; [left; exact P_fuel|].
+    destruct (read_line_cases B r HB) as [[l [rest [r' [Hs [Hr [Hf _]]]]]]|[Hs Hr]]; rewrite Hr.
+    - pose proof (split_nl_concat _ _ _ Hs) as E. rewrite head_end_unfold, Hs.
+      assert (Hsk : skipn (length l) (flat r) = flat r').
+      { rewrite E, Hf, skipn_app, skipn_all, Nat.sub_diag. reflexivity. }
+      destruct (cut_eol l) as [|c line].
+      + right. exists (length l). split; [reflexivity|]. cbn [snd]. symmetry. exact Hsk.
+      + destruct (step s (c :: line)) as [s'|res] eqn:Hst; [|left; exact (P_step _ _ _ Hst)].
+        destruct (IH B s' r' HB) as [Hp|[h [Hh Hfl]]]; [left; exact Hp|].
+        right. exists (length l + h)%nat. rewrite <- Hf, Hh. split; [reflexivity|].
+        rewrite Hfl, <- Hsk, skipn_add. reflexivity.
+    - left. apply P_io.
+  Qed.
+End EndsAtBlank.
+
+Lemma parse_request_line_nil : http_parse_request_line ascii_to_int [] = None.
+Proof. reflexivity. Qed.
+
+Lemma upgrader_tail_ok : forall stext cfg lr, u_err (upgrader_tail stext cfg lr) = None -> snd lr = None.
+Proof.
+  intros stext cfg [s [e|]] H; [|reflexivity]. exfalso. cbn [upgrader_tail] in H.
+  destruct e; try discriminate; try (rewrite reject_err in H; discriminate).
+Qed.
+
+(* a successful Upgrader.Upgrade consumes the stream exactly up to the end of the first empty line *)
+Theorem upgrader_success_head : forall stext cfg B r, 1 <= B ->
+  u_err (upgrader stext cfg B r) = None ->
+  exists h, head_end (flat r) = Some h /\ flat (upgrader_reader cfg B r) = skipn h (flat r).
+Proof.
+  intros stext cfg B r HB He. unfold upgrader in He. unfold upgrader_reader.
+  destruct (read_line_cases B r HB) as [[l [rest [r' [Hs [Hr [Hf _]]]]]]|[Hs Hr]]; rewrite Hr in *; [|discriminate].
+  destruct (http_parse_request_line ascii_to_int (cut_eol l)) as [rl|] eqn:Hp; [|discriminate].
+  destruct (request_line_check cfg rl); [rewrite reject_err in He; discriminate|].
+  apply upgrader_tail_ok in He.
+  destruct (run_stream_blank_or ust lres (line_step cfg) on_blank on_ioerr (on_fuel init_ust)
+              (fun lr => snd lr <> None)
+              ltac:(intros s line res Hst; unfold line_step in Hst;
+                    destruct (http_parse_header_line line) as [[k v]|]; [destruct (hdr_step cfg s k v)|];
+                    inversion Hst; discriminate)
+              ltac:(intros; discriminate) ltac:(discriminate)
+              (Datatypes.S (length (flat r'))) B init_ust r' HB) as [Hbad|[h [Hh Hfl]]]; [congruence|].
+  pose proof (split_nl_concat _ _ _ Hs) as E.
+  exists (length l + h)%nat. split.
+  - rewrite head_end_unfold, Hs. destruct (cut_eol l); [rewrite parse_request_line_nil in Hp; discriminate|].
+    rewrite <- Hf, Hh. reflexivity.
+  - rewrite Hfl, <- (skipn_add h (length l)). f_equal.
+    rewrite E, Hf, skipn_app, skipn_all, Nat.sub_diag. reflexivity.
+Qed.
+
 Section UpgraderTheorems.
+  Variable parse_head : list byte -> option nat.
   Variable wcut : list byte -> list (list byte).
   Hypothesis wcut_ok : forall x, concat (wcut x) = x.
   Variables (stext : N -> list byte) (cfg : ucfg) (B : N).
@@ -725,15 +816,27 @@ Section UpgraderTheorems.
   Variables (hreads : list N) (chunks : list (list byte)) (t : tail_kind).
 
   Theorem debug_upgrader_full_transparent : forall set_req set_resp,
-    let w := debug_upgrader_full wcut set_req set_resp stext cfg B hreads chunks t in
+    let w := debug_upgrader_full parse_head wcut set_req set_resp stext cfg B hreads chunks t in
     let u := upgrader stext cfg B (mkReader [] chunks t) in
     let captured := fst (tee_fetch hreads [] chunks) in
     fu_res w = u
     /\ concat (fu_conn_out w) = u_out u
     /\ fu_on_response w = (if set_resp then Some (u_out u) else None)
-    /\ fu_on_request w = (if set_req then Some captured else None)
-    /\ (exists mid, concat chunks = (if set_req then captured else []) ++ mid ++ concat (fu_conn w))
-    /\ (set_req = true -> head_end captured <> None -> concat chunks = captured ++ concat (fu_conn w)).
+    /\ (fu_on_request w = None <-> set_req = false)
+    /\ (set_req = false -> exists mid, concat chunks = mid ++ concat (fu_conn w))
+    /\ (set_req = true ->
+         (parse_head captured <> None ->
+            fu_on_request w = Some captured
+            /\ (exists mid, concat chunks = captured ++ mid ++ concat (fu_conn w))
+            /\ (head_end captured <> None -> concat chunks = captured ++ concat (fu_conn w)))
+         /\ (parse_head captured = None ->
+              exists taken, fu_on_request w = Some (captured ++ taken)
+                            /\ concat chunks = (captured ++ taken) ++ concat (fu_conn w))
+         /\ (u_err u = None ->
+              exists h, head_end (concat chunks) = Some h
+                /\ (parse_head captured = None \/ head_end captured <> None ->
+                    exists req, fu_on_request w = Some req /\ (h <= length req)%nat
+                                /\ firstn h req = firstn h (concat chunks)))).
   Proof.
     intros set_req set_resp. cbn zeta. unfold debug_upgrader_full.
     destruct set_req.
@@ -744,35 +847,100 @@ Section UpgraderTheorems.
       { unfold flat, r_in. cbn [r_pending r_chunks app]. rewrite multi_reader_flat. exact Hfl. }
       assert (Hfl' : flat r_in = cap ++ concat src1).
       { unfold flat, r_in. cbn [r_pending r_chunks app]. apply multi_reader_flat. }
+      assert (Hall : flat r_in = concat chunks) by (rewrite Hf; reflexivity).
       rewrite (upgrader_chunking_independent stext cfg B B r_in (mkReader [] chunks t) HB HB Hf eq_refl).
       set (chs := r_chunks (upgrader_reader cfg B r_in)).
+      set (pend := r_pending (upgrader_reader cfg B r_in)).
       destruct (upgrader_reader_suffix cfg B r_in HB) as [u0 Hu0].
-      assert (Hsuf : cap ++ concat src1 = (u0 ++ r_pending (upgrader_reader cfg B r_in)) ++ concat chs).
+      assert (Hsuf : cap ++ concat src1 = (u0 ++ pend) ++ concat chs).
       { rewrite <- Hfl', Hu0 at 1. unfold flat. rewrite app_assoc. reflexivity. }
-      destruct set_resp; [rewrite multi_writer_spec|]; cbn [app fu_res fu_conn_out fu_on_request fu_on_response fu_conn];
-        rewrite ?wcut_ok; (split; [reflexivity|split; [reflexivity|split; [reflexivity|split; [reflexivity|]]]]).
-      all: split.
-      all: try (unfold conn_left; destruct (src_len chs <=? src_len src1)%nat eqn:Hcmp;
-                [ destruct (app_suffix_le cap (concat src1) _ (concat chs) Hsuf ltac:(unfold src_len in *; lia)) as [mid Hm];
-                  exists mid; rewrite <- Hfl, Hm; reflexivity
-                | exists []; rewrite <- Hfl; reflexivity ]).
-      all: intros _ Hne; destruct (head_end cap) as [h|] eqn:Hh; [|congruence];
-        pose proof (head_end_le _ _ Hh) as Hlh;
-        pose proof (head_end_app cap (concat src1) h Hh) as Hh2; rewrite <- Hfl' in Hh2;
-        destruct (upgrader_reader_stops_at_blank cfg B r_in h HB Hh2) as [u1 [Hu1 Hlu1]];
-        assert (Hge : (src_len src1 <= length (flat (upgrader_reader cfg B r_in)))%nat)
-          by (apply (f_equal (@length byte)) in Hu1; rewrite Hfl', !app_length in Hu1; unfold src_len; lia);
-        (destruct (upgrader_lazy cfg B r_in src1 cap HB (front_inv_init cap src1)) as [Hlz|Hlz]; [|lia]);
-        fold chs in Hlz; unfold conn_left;
-        (destruct (src_len chs <=? src_len src1)%nat eqn:Hcmp; [|symmetry; exact Hfl]);
-        rewrite (app_suffix_eq cap (concat src1) _ (concat chs) Hsuf ltac:(unfold src_len in *; lia));
-        symmetry; exact Hfl.
+      destruct (conn_split cap src1 chs _ Hsuf) as [Hsplit Hleft].
+      assert (Hout : forall x : list byte,
+                (if set_resp then multi_writer (wcut x) [] [] else (wcut x, []))
+                = (wcut x, if set_resp then x else [])).
+      { intros x. destruct set_resp; [rewrite multi_writer_spec, wcut_ok|]; reflexivity. }
+      rewrite Hout. clear Hout.
+      cbn [fu_res fu_conn_out fu_on_request fu_on_response fu_conn]. rewrite wcut_ok.
+      split; [reflexivity|]. split; [reflexivity|].
+      split; [destruct set_resp; reflexivity|]. split; [split; discriminate|]. split; [discriminate|].
+      intros _. split; [|split].
+      + intros Hp. destruct (parse_head cap) as [n|]; [|congruence]. split; [reflexivity|]. split.
+        * exists (conn_taken src1 chs). rewrite Hsplit. symmetry. exact Hfl.
+        * intros Hne. destruct (head_end cap) as [h|] eqn:Hh; [|congruence].
+          pose proof (head_end_le _ _ Hh) as Hlh.
+          pose proof (head_end_app cap (concat src1) h Hh) as Hh2. rewrite <- Hfl' in Hh2.
+          destruct (upgrader_reader_stops_at_blank cfg B r_in h HB Hh2) as [u1 [Hu1 Hlu1]].
+          assert (Hge : (src_len src1 <= length (flat (upgrader_reader cfg B r_in)))%nat)
+            by (apply (f_equal (@length byte)) in Hu1; rewrite Hfl', !app_length in Hu1; unfold src_len; lia).
+          destruct (upgrader_lazy cfg B r_in src1 cap HB (front_inv_init cap src1)) as [Hlz|Hlz]; [|lia].
+          fold chs in Hlz. unfold conn_left.
+          destruct (src_len chs <=? src_len src1)%nat eqn:Hcmp; [|symmetry; exact Hfl].
+          rewrite (app_suffix_eq cap (concat src1) _ (concat chs) Hsuf ltac:(unfold src_len in *; lia)).
+          symmetry. exact Hfl.
+      + intros Hp. rewrite Hp. exists (conn_taken src1 chs). split; [reflexivity|].
+        rewrite <- app_assoc, Hsplit. symmetry. exact Hfl.
+      + intros He.
+        rewrite <- (upgrader_chunking_independent stext cfg B B r_in (mkReader [] chunks t) HB HB Hf eq_refl) in He.
+        destruct (upgrader_success_head stext cfg B r_in HB He) as [h [Hh Hsk]].
+        rewrite Hall in Hh, Hsk. exists h. split; [exact Hh|].
+        pose proof (head_end_le _ _ Hh) as Hhl.
+        intros [Hp|Hne].
+        * rewrite Hp. exists (cap ++ conn_taken src1 chs). split; [reflexivity|].
+          assert (Hdec : concat chunks = (cap ++ conn_taken src1 chs) ++ concat (conn_left src1 chs)).
+          { rewrite <- app_assoc, Hsplit. symmetry. exact Hfl. }
+          assert (Hlen : (h <= length (cap ++ conn_taken src1 chs))%nat).
+          { assert (Hl1 : length (flat (upgrader_reader cfg B r_in)) = (length (concat chunks) - h)%nat)
+              by (rewrite Hsk, skipn_length; reflexivity).
+            unfold flat in Hl1. fold pend in Hl1. fold chs in Hl1. rewrite app_length in Hl1.
+            apply (f_equal (@length byte)) in Hdec. rewrite app_length in Hdec. unfold src_len in *. lia. }
+          split; [exact Hlen|]. rewrite Hdec, (firstn_app h (cap ++ conn_taken src1 chs) (concat (conn_left src1 chs))).
+          replace (h - length (cap ++ conn_taken src1 chs))%nat with 0%nat by lia.
+          cbn [firstn]. rewrite app_nil_r. reflexivity.
+        * destruct (head_end cap) as [h'|] eqn:Hh'; [|congruence].
+          pose proof (head_end_app cap (concat src1) h' Hh') as Hh2. rewrite Hfl, Hh in Hh2.
+          inversion Hh2; subst h'. pose proof (head_end_le _ _ Hh') as Hlc.
+          assert (Hpre : exists x, concat chunks = cap ++ x) by (exists (concat src1); symmetry; exact Hfl).
+          destruct Hpre as [x Hx].
+          assert (Hfn : firstn h cap = firstn h (concat chunks)).
+          { rewrite Hx, firstn_app. replace (h - length cap)%nat with 0%nat by lia.
+            cbn [firstn]. rewrite app_nil_r. reflexivity. }
+          destruct (parse_head cap).
+          -- exists cap. split; [reflexivity|]. split; [exact Hlc|exact Hfn].
+          -- exists (cap ++ conn_taken src1 chs). split; [reflexivity|]. split; [rewrite app_length; lia|].
+             rewrite <- Hfn, (firstn_app h cap). replace (h - length cap)%nat with 0%nat by lia.
+             cbn [firstn]. rewrite app_nil_r. reflexivity.
     - set (r_in := mkReader [] chunks t).
       destruct (upgrader_reader_suffix cfg B r_in HB) as [u0 Hu0].
-      destruct set_resp; [rewrite multi_writer_spec|]; cbn [app fu_res fu_conn_out fu_on_request fu_on_response fu_conn];
-        rewrite ?wcut_ok; (split; [reflexivity|split; [reflexivity|split; [reflexivity|split; [reflexivity|]]]]).
-      all: split; [|discriminate].
-      all: exists (u0 ++ r_pending (upgrader_reader cfg B r_in)); rewrite <- app_assoc;
-        change (concat chunks) with (flat r_in); exact Hu0.
+      assert (Hout : forall x : list byte,
+                (if set_resp then multi_writer (wcut x) [] [] else (wcut x, []))
+                = (wcut x, if set_resp then x else [])).
+      { intros x. destruct set_resp; [rewrite multi_writer_spec, wcut_ok|]; reflexivity. }
+      rewrite Hout. cbn [fu_res fu_conn_out fu_on_request fu_on_response fu_conn]. rewrite wcut_ok.
+      split; [reflexivity|]. split; [reflexivity|].
+      split; [destruct set_resp; reflexivity|]. split; [split; reflexivity|]. split; [|discriminate].
+      intros _. exists (u0 ++ r_pending (upgrader_reader cfg B r_in)). rewrite <- app_assoc.
+      change (concat chunks) with (flat r_in). exact Hu0.
+  Qed.
+
+  (* after fix F24: a successful upgrade reports the whole request head, whatever net/http made of it *)
+  Theorem debug_upgrader_full_reports_request : forall set_resp,
+    let w := debug_upgrader_full parse_head wcut true set_resp stext cfg B hreads chunks t in
+    let captured := fst (tee_fetch hreads [] chunks) in
+    u_err (upgrader stext cfg B (mkReader [] chunks t)) = None ->
+    parse_head captured = None \/ head_end captured <> None ->
+    exists h req, head_end (concat chunks) = Some h
+      /\ fu_on_request w = Some req
+      /\ (h <= length req)%nat /\ firstn h req = firstn h (concat chunks)
+      /\ concat chunks = req ++ concat (fu_conn w).
+  Proof.
+    intros set_resp. cbn zeta. intros He Hc.
+    destruct (debug_upgrader_full_transparent true set_resp) as [_ [_ [_ [_ [_ H]]]]]. cbn zeta in H.
+    destruct (H eq_refl) as [H1 [H2 H3]]. clear H.
+    destruct (H3 He) as [h [Hh Hreq]]. destruct (Hreq Hc) as [req [Er [Hl Hf]]].
+    exists h, req. split; [exact Hh|]. split; [exact Er|]. split; [exact Hl|]. split; [exact Hf|].
+    destruct (parse_head (fst (tee_fetch hreads [] chunks))) as [n|] eqn:Hp.
+    - destruct Hc as [Hc|Hc]; [discriminate|].
+      destruct (H1 ltac:(discriminate)) as [E1 [_ E3]]. rewrite Er in E1. inversion E1; subst req. exact (E3 Hc).
+    - destruct (H2 eq_refl) as [taken [E1 E2]]. rewrite Er in E1. inversion E1; subst req. exact E2.
   Qed.
 End UpgraderTheorems.
